@@ -22,9 +22,12 @@ def build_binary(race=False):
 
 
 def free_ports(n):
+    """n port numbers that were free a moment ago: UDP ports for the listeners; the fifth is the port of the statistics
+    HTTP server and is therefore probed as a TCP port (a UDP probe says nothing about it, and a collector whose HTTP
+    server cannot bind ends itself with logger.Fatal after its UDP sockets were reported ready)"""
     socks, ports = [], []
-    for _ in range(n):
-        s = socket.socket(socket.AF_INET, socket.SOCK_DGRAM)
+    for i in range(n):
+        s = socket.socket(socket.AF_INET, socket.SOCK_STREAM if i == 4 else socket.SOCK_DGRAM)
         s.bind(("127.0.0.1", 0))
         socks.append(s)
         ports.append(s.getsockname()[1])
@@ -85,8 +88,8 @@ def data_set(tid, fields, rng, nrec=2):
 
 
 class Vflow:
-    def __init__(self, wdir, ports, binary, workers=4):
-        self.wdir, self.ports, self.binary, self.workers = wdir, ports, binary, workers
+    def __init__(self, wdir, ports, binary, workers=4, extra_args=()):
+        self.wdir, self.ports, self.binary, self.workers, self.extra_args = wdir, ports, binary, workers, list(extra_args)
         self.proc = None
         self.errf = None
 
@@ -122,7 +125,7 @@ class Vflow:
                 "-ipfix-tpl-cache-file", os.path.join(self.wdir, "ipfix.cache"),
                 "-netflow9-tpl-cache-file", os.path.join(self.wdir, "nf9.cache"),
                 "-producer-enabled=false", "-dynamic-workers=false", "-verbose=true", "-ipfix-rpc-enabled=false",
-                "-ipfix-workers", str(self.workers), "-netflow9-workers", str(self.workers), "-netflow5-workers", "2", "-sflow-workers", "2"]
+                "-ipfix-workers", str(self.workers), "-netflow9-workers", str(self.workers), "-netflow5-workers", "2", "-sflow-workers", "2"] + self.extra_args
         self.proc = subprocess.Popen(args, stdout=self.errf, stderr=self.errf, cwd=self.wdir)
         # ready when the four UDP sockets are bound ("… is running (UDP: listening …" is logged after ListenUDP)
         t0 = time.time()
@@ -143,9 +146,23 @@ class Vflow:
         except Exception:
             return None
 
-    def stop(self, sig):
+    def stop(self, sig, stall_s=0.0):
+        """deliver the signal and wait for the exit. With `stall_s` the whole process is frozen (SIGSTOP) as soon as the
+        first shutdown() has logged that it is stopping (at the latest 100 ms after the signal) and thawed (SIGCONT)
+        `stall_s` seconds later: what a VM pause, a cgroup freeze or a debugger does to a collector that is shutting down."""
         t0 = time.time()
         self.proc.send_signal(sig)
+        if stall_s:
+            while time.time() - t0 < 0.1:
+                try:
+                    if b"stopping " in open(self.errpath, "rb").read():
+                        break
+                except OSError:
+                    pass
+                time.sleep(0.0005)
+            self.proc.send_signal(signal.SIGSTOP)
+            time.sleep(stall_s)
+            self.proc.send_signal(signal.SIGCONT)
         try:
             rc = self.proc.wait(timeout=15)
         except subprocess.TimeoutExpired:
@@ -376,8 +393,141 @@ def cycle(n, seed, binary, pattern=None):
         shutil.rmtree(wdir, ignore_errors=True)
 
 
+# the flood runs in a process of its own (the cycles run as threads of one Python process and would share its
+# interpreter lock): argv = source address, seconds, then (port, hex datagram) pairs sent round-robin without pause
+FLOOD_SRC = """
+import socket, sys, time
+s = socket.socket(socket.AF_INET, socket.SOCK_DGRAM)
+s.bind((sys.argv[1], 0))
+t_end = time.time() + float(sys.argv[2])
+dst = [(("127.0.0.1", int(sys.argv[i])), bytes.fromhex(sys.argv[i + 1])) for i in range(3, len(sys.argv), 2)]
+k = 0
+while k % 256 or time.time() < t_end:
+    for a, m in dst:
+        try:
+            s.sendto(m, a)
+        except OSError:
+            pass
+    k += 1
+"""
+
+
+def v5_msg(nflows=1):
+    return struct.pack(">HHIIIIBBH", 5, nflows, 1000, int(time.time()), 0, 1, 0, 0, 0) + bytes(range(48)) * nflows
+
+
+def sflow_msg():
+    # version 5, IPv4 agent 10.0.0.1, sub-agent 0, sequence 1, uptime, no samples
+    return struct.pack(">II4sIIII", 5, 1, bytes([10, 0, 0, 1]), 0, 1, 1000, 0)
+
+
+def stall_cycle(n, seed, binary, params=None):
+    """a stop during which the process does not run for a while: the collector is started with `-cpu-cap 1`, all four
+    listeners are flooded (NetFlow v5, sFlow, IPFIX and NetFlow v9 data for templates announced and acknowledged
+    before), SIGTERM / SIGINT is delivered and the process is frozen (SIGSTOP) for 1.2 .. 1.5 s as soon as shutdown()
+    has begun, then thawed while the flood continues. Every 1 s grace period of shutdown() has then elapsed without
+    the read loops having run: whatever shutdown() does next races with a read loop that is still in its iteration.
+    Checks: exit status 0, no panic / fatal error on stderr, exit within 6 s of the thaw, both cache files complete
+    and holding the templates acknowledged before the signal. returns (impl_line, verdict, sample)"""
+    rng = random.Random(seed * 100003 + n * 31 + 17)
+    params = dict(params or {})
+    sig = getattr(signal, params.get("signal") or rng.choice(["SIGTERM", "SIGTERM", "SIGINT"]))
+    stall_s = float(params.get("stall_s") or round(rng.uniform(1.2, 1.5), 2))
+    cpu_cap = str(params.get("cpu_cap") or 1)
+    wdir = os.path.join(C.WORK, "e2e-stall-%d-%d-%d" % (os.getpid(), seed, n))
+    shutil.rmtree(wdir, ignore_errors=True)
+    os.makedirs(wdir)
+    vf = Vflow(wdir, free_ports(5), binary, extra_args=["-cpu-cap", cpu_cap, "-verbose=false"])
+    sample = {"pattern": "stall", "signal": sig.name, "stall_s": stall_s, "cpu_cap": cpu_cap,
+              "flood": "netflow5 sflow ipfix netflow9"}
+    flood = None
+    try:
+        st0 = vf.start()
+        if st0 == "crash":
+            return "start-crashed", "fail:start the collector crashed while starting: " + vf.log()[-300:].replace("\n", " | "), sample
+        if not st0:
+            return "not-started", "", sample
+        ipl = 2 + rng.randrange(5)
+        s = sender(ipl)
+        fields = tpl_fields(rng)
+        tid = 256 + rng.randrange(100)
+        s.sendto(ipfix_msg([tpl_set("ipfix", tid, fields)], 1), ("127.0.0.1", vf.ports[0]))
+        s.sendto(v9_msg([tpl_set("nf9", tid, fields)], 1), ("127.0.0.1", vf.ports[3]))
+        t_ack = time.time()
+        while time.time() - t_ack < 5:
+            st = vf.stats()
+            try:
+                if st["IPFIX"]["DecodedCount"] >= 1 and st["NetflowV9"]["DecodedCount"] >= 1:
+                    break
+            except (KeyError, TypeError):
+                break
+            time.sleep(0.02)
+        s.close()
+        dgrams = [(vf.ports[2], v5_msg(rng.choice([1, 30]))), (vf.ports[1], sflow_msg()),
+                  (vf.ports[0], ipfix_msg([data_set(tid, fields, rng)], 2)), (vf.ports[3], v9_msg([data_set(tid, fields, rng)], 2))]
+        # the mix: evenly over the four listeners, or nine in twelve to one of them (a queue that stays full keeps its
+        # read loop blocked in the channel send)
+        heavy = params.get("heavy", rng.choice(["even", "netflow5", "netflow5", "sflow", "ipfix", "netflow9"]))
+        sample["flood"] = "netflow5 sflow ipfix netflow9, mix " + heavy
+        if heavy != "even":
+            dgrams += [dgrams[["netflow5", "sflow", "ipfix", "netflow9"].index(heavy)]] * 8
+        argv = [sys.executable, "-c", FLOOD_SRC, "127.0.0.%d" % ipl, "12"]
+        for port, m in dgrams:
+            argv += [str(port), m.hex()]
+        flood = subprocess.Popen(argv, stdout=subprocess.DEVNULL, stderr=subprocess.DEVNULL)
+        time.sleep(0.35 + rng.choice([0, 0.05, 0.2]))
+        rc, lat = vf.stop(sig, stall_s=stall_s)
+        flood.kill()
+        flood.wait()
+        log1 = vf.log()
+        sample.update({"exit": rc, "latency_after_thaw_s": round(lat - stall_s, 2)})
+        bad = [w for w in ("panic:", "fatal error", "DATA RACE", "send on closed channel") if w in log1]
+        if rc != 0:
+            i = max(log1.find("panic:"), log1.find("fatal error"), 0)
+            return "exit=%s" % rc, "fail:exit status %s after %s and a %.2fs stall (exit %.1fs after the thaw): %s" % (
+                rc, sig.name, stall_s, lat - stall_s, log1[max(0, i - 200):i + 400].replace("\n", " | ")), sample
+        if bad:
+            return "exit=0 stderr=%s" % bad[0], "fail:stderr the collector logged %r while stopping: %s" % (bad[0], log1[-300:].replace("\n", " | ")), sample
+        if lat - stall_s > 6.0:
+            return "exit=0 slow", "fail:latency exit took %.1fs after the thaw" % (lat - stall_s), sample
+        for proto, fn in (("ipfix", "ipfix.cache"), ("nf9", "nf9.cache")):
+            try:
+                doc = json.load(open(os.path.join(wdir, fn)))
+            except Exception as e:
+                return "exit=0 cache-bad", "fail:cachefile %s is not a complete JSON document after the stop: %r" % (fn, e), sample
+            k = cache_key([127, 0, 0, ipl], tid)
+            ent = (doc["Cache"][k % 32].get("Templates") or {}).get(str(k)) if len(doc.get("Cache") or []) == 32 else None
+            if ent is None:
+                return "exit=0 tpl-missing", "fail:lost template %s exporter 127.0.0.%d id %d acknowledged before the signal is not in %s" % (proto, ipl, tid, fn), sample
+            got = [(f["ElementID"], f["Length"]) for f in ent["Template"].get("FieldSpecifiers") or []]
+            if got != fields:
+                return "exit=0 tpl-differs", "fail:lost template %s 127.0.0.%d/%d stored as %s, announced as %s" % (proto, ipl, tid, got, fields), sample
+        return "exited=1 done=1 panic=0 dumped=1 stalled=1", "ok", sample
+    finally:
+        if flood and flood.poll() is None:
+            flood.kill()
+            flood.wait()
+        if vf.proc and vf.proc.poll() is None:
+            vf.proc.kill()
+        shutil.rmtree(wdir, ignore_errors=True)
+
+
 class E2EResult(C.CorrResult):
     pass
+
+
+def corpus_stalls(pid):
+    """corpus/<pid>/e2e-shutdown--*.txt: one JSON object per line = the parameters of a stalled stop that once failed
+    (`repeat`: how many times it is run; a stall hits the race in roughly one stop out of four)"""
+    d = os.path.join(C.ROOT, "corpus", pid)
+    out = []
+    if os.path.isdir(d):
+        for fn in sorted(os.listdir(d)):
+            if fn.startswith("e2e-shutdown--") and fn.endswith(".txt"):
+                for l in open(os.path.join(d, fn)):
+                    if l.strip() and not l.startswith("#"):
+                        out.append(json.loads(l))
+    return out
 
 
 def shutdown_cycles(pid, tier, seed):
@@ -389,26 +539,39 @@ def shutdown_cycles(pid, tier, seed):
         r.summary = {"built": False}
         return r
     n = 6 if tier == "quick" else 120
+    # stalled stops (process frozen for 1.2 .. 1.5 s while it shuts down, flood on all four listeners, -cpu-cap 1): on the
+    # tree before F21 was repaired 17 % .. 37 % of them (26 % over 120) died with `panic: send on closed channel`, so 32
+    # of them miss it with p < 0.3 %. They run after the ordinary cycles (8 at a time: each keeps two CPUs busy)
+    n_stall = 32 if tier == "quick" else 200
     import concurrent.futures as cf
     lat = []
-    with cf.ThreadPoolExecutor(max_workers=6 if tier == "quick" else 12) as ex:
-        forced = ["lull", "burst", "lull", "steady", "idle", "burst"]   # the quick tier covers every pattern
-        futs = [ex.submit(cycle, i, seed, binary, forced[i] if i < len(forced) else None) for i in range(n)]
+
+    def collect(tag, futs):
         for i, f in enumerate(futs):
             line, verdict, sample = f.result()
             r.evaluations += 1
-            case = "shutdown-cycle %d seed %d %s" % (i, seed, json.dumps(sample))
+            case = "%s %d seed %d %s" % (tag, i, seed, json.dumps(sample))
             r.stats[line] = r.stats.get(line, 0) + 1
             if verdict == "ok":
                 r.oracle_ok += 1
                 r.distinct.add(case)
-                lat.append(sample.get("latency_s", 0))
+                lat.append(sample.get("latency_s", sample.get("latency_after_thaw_s", 0)))
             elif verdict.startswith("fail"):
                 r.oracle_fail.append({"kind": "e2e-shutdown", "seed": seed, "session": [case], "verdict": verdict, "impl": line})
             if len(r.samples) < 3:
                 r.samples.append({"case": case, "impl": line})
-    r.summary = {"cycles": n, "ok": r.oracle_ok, "failed": len(r.oracle_fail), "max_exit_latency_s": max(lat) if lat else None,
-                 "distribution": r.stats}
+
+    with cf.ThreadPoolExecutor(max_workers=6 if tier == "quick" else 12) as ex:
+        forced = ["lull", "burst", "lull", "steady", "idle", "burst"]   # the quick tier covers every pattern
+        collect("shutdown-cycle", [ex.submit(cycle, i, seed, binary, forced[i] if i < len(forced) else None) for i in range(n)])
+    with cf.ThreadPoolExecutor(max_workers=8) as ex:
+        witnesses = [dict(w, repeat=None) for w in corpus_stalls(pid) for _ in range(int(w.get("repeat", 1)))]
+        fw = [ex.submit(stall_cycle, 1000 + i, seed, binary, w) for i, w in enumerate(witnesses)]
+        fs = [ex.submit(stall_cycle, i, seed, binary) for i in range(n_stall)]
+        collect("stalled-stop-witness", fw)
+        collect("stalled-stop", fs)
+    r.summary = {"cycles": n, "stalled_stops": n_stall + len(witnesses), "ok": r.oracle_ok, "failed": len(r.oracle_fail),
+                 "max_exit_latency_s": max(lat) if lat else None, "distribution": r.stats}
     return r
 
 
@@ -461,6 +624,10 @@ def startup_cycle(n, seed, binary):
         if st == "crash" or (st is True and not alive):
             lg = vf.log()
             i = max(lg.find("DATA RACE"), lg.find("fatal error"), lg.find("panic:"))
+            if i < 0 and "address already in use" in lg:
+                return "not-started", "", sample      # a port picked by the harness was taken by another process: no verdict
+            if i < 0:
+                i = max(0, len(lg) - 880)             # died without a crash report: show how the log ends
             return "start-crashed", "fail:startup the collector died / raced while starting under traffic (ipfix.elements %s): %s" % (
                 "installed" if installed else "absent", lg[max(0, i - 20):i + 900].replace("\n", " | ")), sample
         if not st:
